@@ -87,33 +87,44 @@ Definition rows0 : list (Z * row) := number 0 c17_bindings.
 Definition rows1 : list (Z * row) := number 0 (c17_bindings ++ c17_extra_rows).
 Definition rows_of (e : estate) : list (Z * row) := if eextra e then rows1 else rows0.
 
-Definition exact_matches (e : estate) (ks : list kp) : list (Z * row) :=
-  filter (fun ir => active e (snd ir) && pmatches (r_pats (snd ir)) ks) (rows_of e).
+(* dispatch over a numbered table T *)
+Definition exact_matches_t (T : list (Z * row)) (e : estate) (ks : list kp) : list (Z * row) :=
+  filter (fun ir => active e (snd ir) && pmatches (r_pats (snd ir)) ks) T.
 Definition to_bid (o : option (Z * row)) : option bid :=
   match o with Some (i, r) => Some (i, r_eff r) | None => None end.
 
-Definition e_lookup_scan (e : estate) (ks : list kp) : option bid :=
-  to_bid (best (exact_matches e ks) None).
-Definition e_lookup (e : estate) (ks : list kp) : option bid :=
-  let m := exact_matches e ks in
+Definition lookup_scan_t T (e : estate) (ks : list kp) : option bid :=
+  to_bid (best (exact_matches_t T e ks) None).
+Definition lookup_t T (e : estate) (ks : list kp) : option bid :=
+  let m := exact_matches_t T e ks in
   match filter (fun ir => eager e (snd ir)) m with
   | [] => to_bid (best m None)
   | em => to_bid (best em None)
   end.
 (* _handle_cpr_response: for binding in reversed(get_bindings_for_keys((CPRResponse,))):
    the first with binding.keys == (CPRResponse,) and an active filter *)
-Definition e_cpr_lookup (e : estate) : option bid :=
+Definition cpr_lookup_t (T : list (Z * row)) (e : estate) : option bid :=
   match rev (filter (fun ir => active e (snd ir) &&
-                               match r_pats (snd ir) with [p] => p =? c17_key_CPRResponse | _ => false end) (rows_of e)) with
+                               match r_pats (snd ir) with [p] => p =? c17_key_CPRResponse | _ => false end) T) with
   | (i, r) :: _ => Some (i, r_eff r)
   | [] => None
   end.
-
-Definition e_waits (e : estate) (ks : list kp) : bool :=
-  match filter (fun ir => eager e (snd ir)) (exact_matches e ks) with
-  | [] => existsb (fun ir => active e (snd ir) && pprefix (r_pats (snd ir)) ks) (rows_of e)
+Definition waits_t T (e : estate) (ks : list kp) : bool :=
+  match filter (fun ir => eager e (snd ir)) (exact_matches_t T e ks) with
+  | [] => existsb (fun ir => active e (snd ir) && pprefix (r_pats (snd ir)) ks) T
   | _ => false
   end.
+
+(* the session's table: with or without the user binding *)
+Definition e_lookup_scan (e : estate) := lookup_scan_t (rows_of e) e.
+Definition e_lookup (e : estate) := lookup_t (rows_of e) e.
+Definition e_cpr_lookup (e : estate) := cpr_lookup_t (rows_of e) e.
+Definition e_waits (e : estate) := waits_t (rows_of e) e.
+(* a default session (no user binding): what the theorems about the real table are stated for *)
+Definition d_lookup_scan := lookup_scan_t rows0.
+Definition d_lookup := lookup_t rows0.
+Definition d_cpr_lookup := cpr_lookup_t rows0.
+Definition d_waits := waits_t rows0.
 
 (* ---------------------------------------------------------------------- *)
 (* Handlers (single-line text; event.arg = 1) *)
